@@ -63,10 +63,29 @@ def snap(a):
     return (a.dtype.str, a.shape, a.tobytes())
 
 
-def mk(values, shape, dtype, readonly=False):
+JUNK = 77
+
+
+def mk(values, shape, dtype, readonly=False, layout=None):
+    """the array with the given values, C-order shape -- in the requested MEMORY LAYOUT: contiguous, Fortran order,
+    transposed view of a contiguous buffer, every second element of a longer buffer (last axis), reversed view"""
     if isinstance(values, list) and any(isinstance(v, str) for v in values):
         values = [float(v) if isinstance(v, str) else v for v in values]        # 'nan', 'inf', '-inf' travel as strings
     a = np.array(values, dtype=dtype).reshape(shape)
+    if layout == 'be':                 # non-native byte order (what astropy.io.fits hands out)
+        a = a.astype(a.dtype.newbyteorder('>' if sys.byteorder == 'little' else '<'))
+    elif layout == 'f':
+        a = np.asfortranarray(a)
+    elif layout == 't':
+        a = np.ascontiguousarray(a.T).T
+    elif layout == 'strided' and a.ndim >= 1:
+        shp = list(a.shape)
+        shp[-1] *= 2
+        base = np.full(shp, JUNK, dtype=a.dtype)
+        base[..., ::2] = a
+        a = base[..., ::2]
+    elif layout == 'rev' and a.ndim >= 1:
+        a = np.ascontiguousarray(a[::-1])[::-1]
     if readonly:
         a.setflags(write=False)
     return a
@@ -85,7 +104,9 @@ def arr(c, key, shape, dtype='d'):
             raise NotRun()
         s0 = snap(a)
     else:
-        a = mk(x, shape, (c.get('dtypes') or {}).get(key, dtype), bool(c.get('readonly')))
+        lay = c.get('layout')
+        a = mk(x, shape, (c.get('dtypes') or {}).get(key, dtype), bool(c.get('readonly')),
+               lay.get(key) if isinstance(lay, dict) else lay)
         s0 = snap(a)
     USED.append((key, a, s0))
     return a
@@ -110,23 +131,40 @@ def call(c, keep=None):
             for k in ('lower', 'upper', 'maxdev'):
                 if c.get(k) is not None:
                     kw[k] = c[k]
+            style = c.get('argstyle')
+            mdt = c.get('maskint', 'i8') if style == 'intmask' else 'bool'
             if c.get('sigma') is not None:
                 kw['sigma'] = c['sigma'] if not isinstance(c['sigma'], (list, dict)) else arr(c, 'sigma', shape)
             if c.get('invvar') is not None:
                 kw['invvar'] = arr(c, 'invvar', shape)
-            if c.get('inmask') is not None:
-                kw['inmask'] = arr(c, 'inmask', shape, 'bool')
-            om = arr(c, 'outmask', shape, 'bool')
+            if c.get('inmask_values') is not None:
+                kw['inmask'] = arr(c, 'inmask_values', shape, mdt)
+            elif c.get('inmask') is not None:
+                kw['inmask'] = arr(c, 'inmask', shape, mdt)
+            om = arr(c, 'outmask_values' if c.get('outmask_values') is not None else 'outmask', shape, mdt)
             if 'grow' in c:
                 kw['grow'] = c['grow']
             if 'sticky' in c:
                 kw['sticky'] = c['sticky']
+            if style == 'intflags':
+                kw['sticky'] = int(bool(c.get('sticky'))) if c.get('grow', 0) % 2 else np.bool_(bool(c.get('sticky')))
+                kw['grow'] = np.int64(c.get('grow', 0))
+            elif style == 'intlimits':
+                for k in ('lower', 'upper', 'maxdev', 'sigma'):
+                    if isinstance(kw.get(k), float) and kw[k] == int(kw[k]):
+                        kw[k] = int(kw[k])
+            elif style == 'explicit_none':
+                for k in ('inmask', 'sigma', 'invvar', 'lower', 'upper', 'maxdev', 'maxrej', 'groupdim', 'groupsize'):
+                    kw.setdefault(k, None)
+                kw.setdefault('groupbadpix', False)
             data = arr(c, 'data', shape)
             model = arr(c, 'model', shape)
             mask, qdone = djs_reject(data, model, outmask=om, **kw)
             if keep is not None:
                 keep.append(mask)
-            if mask.shape != shape or mask.dtype != np.bool_ or not isinstance(qdone, bool):
+            # (a tree that combines the masks bitwise returns an integer mask for integer masks: read by truthiness)
+            okdt = mask.dtype == np.bool_ or (style == 'intmask' and mask.dtype.kind in 'iu')
+            if mask.shape != shape or not okdt or not isinstance(qdone, bool):
                 return post({'err': 'BadResult', 'msg': '%s %s %r' % (mask.shape, mask.dtype, qdone)}, [mask])
             return post({'ok': {'mask': [bool(x) for x in mask.ravel()], 'qdone': qdone}}, [mask])
         if f == 'interp':
@@ -170,7 +208,8 @@ def call(c, keep=None):
             shape = tuple(c['shape'])
             iv = arr(c, 'invvar', shape)
             om = arr(c, 'mask', shape, c['dtype'])
-            am = mk(np.zeros(shape), shape, c['dtype'], bool(c.get('readonly')))
+            lay = c.get('layout')
+            am = mk(np.zeros(shape), shape, c['dtype'], bool(c.get('readonly')), lay.get('andmask') if isinstance(lay, dict) else lay)
             USED.append(('andmask', am, snap(am)))
             kw = {}
             if c.get('ngrow') is not None:
@@ -201,10 +240,26 @@ def history(h):
     del PREV[:]
     spec = h['arrays']
     for name, a in spec.items():
-        x = mk(a['v'], tuple(a['shape']), a['dtype'], bool(a.get('readonly')))
+        x = mk(a['v'], tuple(a['shape']), a['dtype'], bool(a.get('readonly')), a.get('layout'))
         SHARED[name] = (x, snap(x))
     steps = []
     for st in h['steps']:
+        if st.get('f') == 'mutate':
+            # the CALLER overwrites one of the shared arrays in place between two calls; the snapshot moves with it
+            x, _ = SHARED[st['name']]
+            new = np.array(st['v'], dtype=x.dtype).reshape(x.shape)
+            was_ro = not x.flags.writeable
+            if was_ro:
+                x.setflags(write=True)
+            if st.get('how') == 'iadd':
+                x += (new - x)
+            else:
+                x[...] = new
+            if was_ro:
+                x.setflags(write=False)
+            SHARED[st['name']] = (x, snap(x))
+            steps.append({'mutate': True, 'holds': bool(np.array_equal(x, new))})
+            continue
         keep = []
         r = call(st, keep)
         PREV.append(keep[0] if keep else None)
